@@ -175,6 +175,145 @@ func refactorTree(dir, kind string) error {
 					}
 					return true
 				})
+			case "add-calls":
+				// a call of a package-level no-op function is inserted before every statement of every block
+				// (what a maintainer does when adding tracing); the function is added to each package below
+				ins := func(list []ast.Stmt) []ast.Stmt {
+					var out []ast.Stmt
+					for _, st := range list {
+						if _, lab := st.(*ast.LabeledStmt); !lab {
+							out = append(out, &ast.ExprStmt{X: &ast.CallExpr{Fun: ast.NewIdent("traceZq")}})
+							n++
+						}
+						out = append(out, st)
+					}
+					return out
+				}
+				ast.Inspect(file, func(x ast.Node) bool {
+					switch b := x.(type) {
+					case *ast.BlockStmt:
+						if len(b.List) > 0 {
+							switch b.List[0].(type) {
+							case *ast.CaseClause, *ast.CommClause:
+								return true
+							}
+						}
+						b.List = ins(b.List)
+					case *ast.CaseClause:
+						b.Body = ins(b.Body)
+					case *ast.CommClause:
+						b.Body = ins(b.Body)
+					}
+					return true
+				})
+				changed = true
+			case "unwrap-else":
+				// { …; if c { …; return } else { rest } }  →  { …; if c { …; return }; rest }   (the if is the last statement)
+				ast.Inspect(file, func(x ast.Node) bool {
+					b, ok := x.(*ast.BlockStmt)
+					if !ok || len(b.List) == 0 {
+						return true
+					}
+					is, ok := b.List[len(b.List)-1].(*ast.IfStmt)
+					if !ok || is.Else == nil || is.Init != nil || len(is.Body.List) == 0 {
+						return true
+					}
+					eb, ok := is.Else.(*ast.BlockStmt)
+					if !ok {
+						return true
+					}
+					if _, isRet := is.Body.List[len(is.Body.List)-1].(*ast.ReturnStmt); !isRet {
+						return true
+					}
+					// a name declared at the top of the else block must not already be declared in the enclosing block
+					sc := pk.TypesInfo.Scopes[b]
+					clash := false
+					for _, st := range eb.List {
+						switch d := st.(type) {
+						case *ast.AssignStmt:
+							if d.Tok == token.DEFINE {
+								for _, l := range d.Lhs {
+									if id, ok := l.(*ast.Ident); ok && sc != nil && sc.Lookup(id.Name) != nil {
+										clash = true
+									}
+								}
+							}
+						case *ast.DeclStmt:
+							clash = true
+						case *ast.LabeledStmt:
+							clash = true
+						}
+					}
+					if clash || sc == nil {
+						return true
+					}
+					is.Else = nil
+					b.List = append(b.List, eb.List...)
+					changed = true
+					n++
+					return true
+				})
+			case "split-and":
+				// if a && b { S }  →  if a { if b { S } }      (no else branch)
+				ast.Inspect(file, func(x ast.Node) bool {
+					is, ok := x.(*ast.IfStmt)
+					if !ok || is.Else != nil {
+						return true
+					}
+					be, ok := is.Cond.(*ast.BinaryExpr)
+					if !ok || be.Op != token.LAND {
+						return true
+					}
+					inner := &ast.IfStmt{Cond: be.Y, Body: is.Body}
+					is.Cond = be.X
+					is.Body = &ast.BlockStmt{List: []ast.Stmt{inner}}
+					changed = true
+					n++
+					return true
+				})
+			case "split-or":
+				// if a || b { …; return }  →  if a { …; return }; if b { …; return }     (no init, no else, short body without declarations)
+				split := func(list []ast.Stmt) []ast.Stmt {
+					var out []ast.Stmt
+					for _, st := range list {
+						is, ok := st.(*ast.IfStmt)
+						if ok && is.Else == nil && is.Init == nil && len(is.Body.List) > 0 && len(is.Body.List) <= 3 {
+							if be, ok := is.Cond.(*ast.BinaryExpr); ok && be.Op == token.LOR {
+								last := is.Body.List[len(is.Body.List)-1]
+								_, isRet := last.(*ast.ReturnStmt)
+								if br, ok := last.(*ast.BranchStmt); ok && (br.Tok == token.CONTINUE || br.Tok == token.BREAK) && br.Label == nil {
+									isRet = true
+								}
+								hasLit := false
+								ast.Inspect(is.Body, func(y ast.Node) bool {
+									if _, ok := y.(*ast.FuncLit); ok {
+										hasLit = true
+									}
+									return true
+								})
+								if isRet && !hasLit {
+									out = append(out, &ast.IfStmt{Cond: be.X, Body: is.Body}, &ast.IfStmt{Cond: be.Y, Body: is.Body})
+									changed = true
+									n++
+									continue
+								}
+							}
+						}
+						out = append(out, st)
+					}
+					return out
+				}
+				ast.Inspect(file, func(x ast.Node) bool {
+					switch b := x.(type) {
+					case *ast.BlockStmt:
+						b.List = split(b.List)
+					case *ast.CaseClause:
+						b.Body = split(b.Body)
+					case *ast.CommClause:
+						b.Body = split(b.Body)
+					}
+					return true
+				})
 			case "shift-lines":
 				changed = true
 			default:
@@ -198,6 +337,22 @@ func refactorTree(dir, kind string) error {
 				}
 			}
 			if err := os.WriteFile(path, buf.Bytes(), 0o644); err != nil {
+				return err
+			}
+		}
+	}
+	if kind == "add-calls" {
+		for _, rel := range sdkPkgs {
+			pk := p.Pkg(rel)
+			if pk == nil || len(pk.CompiledGoFiles) == 0 {
+				continue
+			}
+			pdir := pk.CompiledGoFiles[0][:strings.LastIndex(pk.CompiledGoFiles[0], "/")]
+			if !strings.HasPrefix(pdir, dir) {
+				continue
+			}
+			src := fmt.Sprintf("package %s\n\nvar traceSinkZq func()\n\nfunc traceZq() {\n\tdefer func() {}()\n\tif traceSinkZq != nil {\n\t\ttraceSinkZq()\n\t}\n}\n", pk.Types.Name())
+			if err := os.WriteFile(pdir+"/zz_trace_zq.go", []byte(src), 0o644); err != nil {
 				return err
 			}
 		}
